@@ -394,8 +394,25 @@ func drive(t *testing.T, decode func(raw json.RawMessage) (caseT, error), mk fun
 		pool := NewPool(1)
 		defer pool.Close()
 		res.Evaluations = 1
-		if mm, _ := protected(pool.Get(), c); mm != nil {
-			fail(c, mm)
+		// What the cache does with the rows of one import depends on Go's map iteration
+		// order: a replay is attempted several times and fails if any attempt fails.
+		for try := 0; try < behav.EnvInt("VERIF_REPLAY_TRIES", 12); try++ {
+			if try > 0 {
+				if c, err = decode(raw); err != nil {
+					t.Fatal(err)
+				}
+			}
+			srv := pool.Get()
+			mm, broken := protected(srv, c)
+			if mm != nil {
+				fail(c, mm)
+				return
+			}
+			if broken {
+				pool.Replace(srv)
+			} else {
+				pool.Put(srv)
+			}
 		}
 		return
 	}
